@@ -7,6 +7,7 @@
 # include "c05.h"
 #endif
 #include "c10h.h"
+#include "c20s.h"
 #if __has_include("c06.h")
 # include "c06.h"
 #endif
@@ -37,6 +38,7 @@ static void Warmup()
 static const PropDef kProps[] = {
    {"C04", c04::Gen, c04::Exec, false},
    {"C10H", c10h::Gen, c10h::Exec, false},
+   {"C20S", c20s::Gen, c20s::Exec, false},
 #if __has_include("c13.h")
    {"C13", c13::Gen, c13::Exec, false},
 #endif
